@@ -1,6 +1,8 @@
 import SdnsVerif.Model.IPSet
 import SdnsVerif.Lemmas.IPSet
 import SdnsVerif.Gen.C17
+import SdnsVerif.Model.Chain
+import SdnsVerif.Lemmas.Chain
 /-!
 # C17 — access control is exact and applies to clients only
 
@@ -287,6 +289,133 @@ theorem client_policies_are_client_only :
     SdnsVerif.Gen.C17.clientonly_accesslist = true ∧ SdnsVerif.Gen.C17.clientonly_ratelimit = true ∧
     SdnsVerif.Gen.C17.clientonly_reflex = true ∧ SdnsVerif.Gen.C17.clientonly_views = true := by
   decide
+
+/-! ## Chain dispatch: "deny = cancel with no write, ahead of every answering handler" -/
+
+section ChainDispatch
+open SdnsVerif.Model.Chain SdnsVerif.Lemmas.Chain
+
+/-- The model's recursion budget is a proof device only: a served query never
+exhausts it, whatever the handlers do (so no theorem below is true because the
+model gave up). -/
+theorem run_has_fuel (hs : List Script) : (run hs).oof = false :=
+  (exec_fuel_ok hs (weight hs 0 + 1) hs.length [.next] { pos := 0, count := hs.length } rfl
+    (by simp; omega)).1
+
+/-- **`Cancel` is final.** Once a handler has cancelled the chain, no handler
+is invoked any more — not by the handlers further up the stack when their own
+`Next` returns, however often they call `Next` again. -/
+theorem cancel_is_final (hs : List Script) (fuel self : Nat) (acts : Script) (st : St)
+    (h : st.count = 0) : (exec hs fuel self acts st).ran = st.ran :=
+  (exec_count_zero hs fuel self acts st h).1
+
+/-- **A denied source reaches nothing.** Take ANY chain in which the access
+list (script: `Cancel`, no write — what `accesslist.ServeDNS` does for a source
+outside the list) sits behind handlers that never write (observers), and ANY
+handlers after it, with any scripts — answering, looking up, resolving.  Serving
+a query then ends with no reply written and with no handler behind the access
+list ever invoked, whatever the observers do around their `Next` calls. -/
+theorem denied_source_reaches_nothing (pre post : List Script)
+    (hpre : ∀ s ∈ pre, Act.write ∉ s) :
+    (run (pre ++ [[Act.cancel]] ++ post)).writer = none ∧
+    ∀ i ∈ (run (pre ++ [[Act.cancel]] ++ post)).ran, i ≤ pre.length := by
+  have hk : (pre ++ [[Act.cancel]] ++ post)[pre.length]? = some [Act.cancel] := by
+    simp [List.getElem?_append_left, List.getElem?_append_right]
+  have hp : ∀ p s, p < pre.length → (pre ++ [[Act.cancel]] ++ post)[p]? = some s → Act.write ∉ s := by
+    intro p s hlt hg
+    have : pre[p]? = some s := by
+      rw [List.append_assoc, List.getElem?_append_left hlt] at hg; exact hg
+    exact hpre s (List.mem_of_getElem? this)
+  have hq := exec_quiet (pre ++ [[Act.cancel]] ++ post) pre.length hk hp
+    (weight (pre ++ [[Act.cancel]] ++ post) 0 + 1) (pre ++ [[Act.cancel]] ++ post).length [.next]
+    { pos := 0, count := (pre ++ [[Act.cancel]] ++ post).length }
+    ⟨rfl, by simp, by simp⟩ (by simp)
+  exact ⟨hq.1, hq.2.1⟩
+
+-- non-vacuity: observers that wrap `Next` (and even call it twice), an answering
+-- handler and a resolver behind the access list; on an ALLOWED source (`next`) the
+-- same chain does reach them and a reply is written.
+example : (run ([[.next], [.next, .next]] ++ [[Act.cancel]] ++ [[.write, .cancel], [.write]])).ran = [0, 1, 2] ∧
+    (run ([[.next], [.next, .next]] ++ [[Act.cancel]] ++ [[.write, .cancel], [.write]])).writer = none := by decide
+example : (run [[.next], [.next, .next], [.next], [.write, .cancel], [.write]]).ran = [0, 1, 2, 3] ∧
+    (run [[.next], [.next, .next], [.next], [.write, .cancel], [.write]]).writer = some 3 := by decide
+-- why `Cancel` (and not merely returning) is what makes the denial hold: an access
+-- list that just returned would let an observer's second `Next` reach the resolver.
+example : (run [[.next, .next], [], [.write]]).writer = some 2 := by decide
+
+/-! ## Internal sub-pipelines hold no client policy -/
+
+/-- **`autoWire`.** For any registered handler list: neither internal pipeline
+contains a client-only handler, the prefetch pipeline additionally lacks the
+cache, both keep the remaining handlers in their registered order, and every
+handler that is not client-only (and shares no name with one) is kept. -/
+theorem internal_pipelines_hold_no_client_policy (hs : List H) :
+    (∀ h ∈ queryerSub hs, h.clientOnly = false) ∧
+    (∀ h ∈ prefetchSub hs, h.clientOnly = false ∧ h.name ≠ "cache") ∧
+    (queryerSub hs).Sublist hs ∧ (prefetchSub hs).Sublist hs ∧
+    (∀ h ∈ hs, h.name ∉ autoSkip hs → h ∈ queryerSub hs) := by
+  refine ⟨?_, ?_, List.filter_sublist, List.filter_sublist, ?_⟩
+  · intro h hm
+    simp only [queryerSub, subPipeline, List.mem_filter] at hm
+    obtain ⟨hin, hns⟩ := hm
+    cases hco : h.clientOnly with
+    | false => rfl
+    | true =>
+      exfalso
+      have : h.name ∈ autoSkip hs := by
+        simp only [autoSkip, List.mem_map, List.mem_filter]
+        exact ⟨h, ⟨hin, hco⟩, rfl⟩
+      simp [this] at hns
+  · intro h hm
+    simp only [prefetchSub, subPipeline, List.mem_filter] at hm
+    obtain ⟨hin, hns⟩ := hm
+    refine ⟨?_, ?_⟩
+    · cases hco : h.clientOnly with
+      | false => rfl
+      | true =>
+        exfalso
+        have : h.name ∈ autoSkip hs := by
+          simp only [autoSkip, List.mem_map, List.mem_filter]
+          exact ⟨h, ⟨hin, hco⟩, rfl⟩
+        simp [this] at hns
+    · intro hc
+      simp [hc] at hns
+  · intro h hin hns
+    simp only [queryerSub, subPipeline, List.mem_filter]
+    exact ⟨hin, by simp [hns]⟩
+
+/-- The default chain of the current tree, with the `ClientOnly()` answers of the
+compiled handlers (regenerated facts): its internal pipeline is exactly the
+chain minus accesslist, ratelimit, reflex and views — and whatever else declares
+itself client-only — and all four client policies of the property are gone. -/
+theorem default_internal_pipeline_has_no_client_policy :
+    ∀ n ∈ ["accesslist", "ratelimit", "reflex", "views"],
+      n ∉ (queryerSub ((SdnsVerif.Gen.C17.chain_order.zip SdnsVerif.Gen.C17.chain_clientonly).map
+            fun x => ⟨x.1, x.2⟩)).map (·.name) := by
+  decide
+
+end ChainDispatch
+
+/-! ## Who counts as internal -/
+
+section Ident
+open SdnsVerif.Model.Chain
+
+/-- **The internal flag cannot be claimed from the network.** A peer that
+arrived through a socket — a non-zero source port, or any address other than the
+resolver's own sentinel — on a transport that does not declare itself internal
+is never treated as internal, so it cannot skip the client policies. -/
+theorem network_peer_is_never_internal (p : Peer) (ht : p.transportInternal = false)
+    (hp : p.port ≠ 0 ∨ p.sentinelIP = false) : derivedInternal p = false := by
+  unfold derivedInternal
+  rcases hp with hp | hp
+  · simp [ht, hp]
+  · simp [ht, hp]
+
+example : derivedInternal ⟨.udp, true, 0, "", false⟩ = true := by decide   -- the sentinel source
+example : derivedInternal ⟨.tcp, true, 53124, "", false⟩ = false := by decide
+
+end Ident
 
 -- non-vacuity of the exact-membership theorem: a nested pair and a bad entry
 example : (Set.new [some (Fam.v4, 0x0a000000, 8), none, some (Fam.v4, 0x0a010203, 24)]).contains Fam.v4 0x0a0102ff = true :=
